@@ -168,6 +168,9 @@ func parallel(n, workers int, f func(i int)) {
 func (c *Ctx) AddViolation(v Violation) {
 	c.mu.Lock()
 	defer c.mu.Unlock()
+	if len(v.What) > 600 {
+		v.What = v.What[:600] + "… (full text in the replay file)"
+	}
 	for _, k := range c.kf.Known {
 		if k.Property == c.ID && k.Key == v.Key {
 			line := fmt.Sprintf("KNOWN-FINDING: property=%s %s — %s", c.ID, v.Key, v.What)
